@@ -58,28 +58,83 @@ Theorem C05_lifecycle_end : forall n tr c,
 Proof. exact lifecycle_end. Qed.
 Print Assumptions C05_lifecycle_end.
 
-(* A push addressed to a removed session is dropped: the state after the push is the same
-   as if that target had not been listed - whatever else is listed. *)
-Theorem C05_push_after_remove_dropped : forall n tr c id g cs1 cs2,
+(* The owning service, in the middle of a PushMsg, reaches a target whose session was removed:
+   the push is dropped - the service moves on to its next target and nothing else changes. *)
+Theorem C05_push_after_remove_dropped : forall n tr c id g rest,
   let s := run_from (init_with n) tr in
   f_reused (fr s) = false -> In (HRemove c id g) (hlog_of s) ->
-  step s (LPush (cs1 ++ c :: cs2)) = step s (LPush (cs1 ++ cs2)).
+  own s = c :: rest -> step s LOwner = s_own rest s.
 Proof. exact push_after_remove. Qed.
 Print Assumptions C05_push_after_remove_dropped.
 
-(* ... and a push changes nothing but the connections whose live session it addresses:
+(* ... and a push step changes nothing but the connection whose live session it addresses:
    other connections, the queue, the front and the clock are untouched. *)
-Theorem C05_push_frame : forall cs s c',
-  (forall c id, In c cs -> aget c (f_netid (fr s)) = Some id -> aget id (f_live (fr s)) <> Some c') ->
-  aget c' (conns (step s (LPush cs))) = aget c' (conns s).
-Proof. exact push_frame. Qed.
+Theorem C05_push_frame : forall s c',
+  (forall c rest, own s = c :: rest -> target_of s c <> Some c') ->
+  aget c' (conns (step s LOwner)) = aget c' (conns s).
+Proof. exact owner_frame. Qed.
 Print Assumptions C05_push_frame.
 
-Theorem C05_push_quiet : forall s cs,
-  let s' := step s (LPush cs) in
+Theorem C05_push_quiet : forall s,
+  let s' := step s LOwner in
   q s' = q s /\ dn s' = dn s /\ fr s' = fr s /\ now s' = now s.
-Proof. exact push_quiet_all. Qed.
+Proof. exact owner_quiet_all. Qed.
 Print Assumptions C05_push_quiet.
+
+(* The send queue is a bounded FIFO: never more than 9999 entries, in any schedule. *)
+Theorem C05_chsend_bounded : forall n tr c k,
+  aget c (conns (run_from (init_with n) tr)) = Some k ->
+  c_nq k = Z.of_nat (length (c_sendq k)) /\ 0 <= c_nq k <= chcap.
+Proof. exact chsend_bounded. Qed.
+Print Assumptions C05_chsend_bounded.
+
+(* A Push parks its caller exactly when the session is open and its queue is full ... *)
+Theorem C05_parked_iff_full_and_open : forall k,
+  push_k k = None <-> (c_status k <> SClosed /\ c_latch k = false /\ chcap <= c_nq k).
+Proof. exact push_k_parked. Qed.
+Print Assumptions C05_parked_iff_full_and_open.
+
+(* ... and once the connection is closed nobody stays parked on it: the pushing goroutine's
+   next step returns a push (dropped: the queue is unchanged), a parked heartbeat send
+   returns, and the owning service parked on this connection moves on to its next target. *)
+Theorem C05_closed_never_blocks : forall s c k,
+  aget c (conns s) = Some k -> c_latch k = true ->
+  (0 < c_pp k -> exists k', aget c (conns (step s (LStep c TP))) = Some k' /\
+                            c_pp k' = c_pp k - 1 /\ c_npush k' = c_npush k + 1 /\
+                            c_sendq k' = c_sendq k) /\
+  (c_hp k = HSend -> exists k', aget c (conns (step s (LStep c TH))) = Some k' /\
+                                c_hp k' = HLoop /\ c_sendq k' = c_sendq k) /\
+  (forall c0 rest, own s = c0 :: rest -> target_of s c0 = Some c -> own (step s LOwner) = rest).
+Proof. exact closed_never_blocks. Qed.
+Print Assumptions C05_closed_never_blocks.
+
+(* Hence at the end of a connection (an end cause was signalled, no thread of it - reader,
+   writer, heartbeat, pusher - can move): it is closed, every push issued to it has returned,
+   no heartbeat send is parked, and the owning service is not parked on it. *)
+Theorem C05_end_releases_senders : forall n tr c k,
+  let s := run_from (init_with n) tr in
+  conn_of s c = Some k -> c_cause k = true -> stuck s c ->
+  c_latch k = true /\ c_pp k <= 0 /\ c_hp k <> HSend /\
+  (forall c0 rest, own s = c0 :: rest -> target_of s c0 = Some c -> step s LOwner <> s).
+Proof. exact end_releases_senders. Qed.
+Print Assumptions C05_end_releases_senders.
+
+(* The acceptor: in every schedule every connection the listener accepted is in exactly one
+   place - listener backlog, accept loop's hand, connChan (never more than 99), StartAcceptor's
+   hand - or has become a session; none is lost, none is duplicated. *)
+Theorem C05_acceptor_no_loss : forall n tr, acc_ok (run_from (init_with n) tr).
+Proof. exact acc_reach. Qed.
+Print Assumptions C05_acceptor_no_loss.
+
+(* ... and once the service has caught up and neither loop can move, every accepted
+   connection IS a session with exactly one Add posted (its life cycle is then C05_lifecycle). *)
+Theorem C05_acceptor_quiescent : forall n tr,
+  let s := run_from (init_with n) tr in
+  gate s = false -> step s LStepA = s -> step s LStepS = s ->
+  pipeline s = [] /\
+  forall c, In c (dialed s) -> conn_of s c <> None /\ count_add c (posted s) = 1%nat.
+Proof. exact acceptor_quiescent. Qed.
+Print Assumptions C05_acceptor_quiescent.
 
 (* Ids: the j-th session added gets the j-th value of a counter that walks 1 .. 2^32-1
    cyclically (0 skipped) ... *)
@@ -132,7 +187,7 @@ Definition ex_ops : list op :=
 Example C05_example_obs :
   model_obs ex_ops =
   Obs [HAdd 1 2; HAdd 2 3; HMsg 1 2 7; HRemove 1 2 true; HCloseCb 1 2]
-      [CFin 1 1 1 1 0 true; CFin 2 0 0 1 1 false] 3 false false.
+      [CFin 1 1 1 1 0 true; CFin 2 0 0 1 1 false] 3 0 false false.
 Proof. vm_compute. reflexivity. Qed.
 
 Example C05_example_end :
@@ -144,6 +199,35 @@ Proof.
   repeat split; try (vm_compute; reflexivity).
   intro t; destruct t; vm_compute; reflexivity.
 Qed.
+
+(* the send queue at capacity: the client stops reading, a goroutine issues 10026 pushes (one
+   is in the stalled writer's hand, 9999 fill the queue, the 10001st parks), a heartbeat send
+   and the owning service park on the same queue; then the session is kicked by an external
+   Close: every push returns, nobody stays parked, the Remove is observed *)
+Definition flood_ops : list op :=
+  [OConnect 1; OSend 1 PHandshake; ORelease 1; OSend 1 PAck; ORelease 1; ODrain;
+   OWstall 1; OFlood 1 10026].
+
+Example C05_example_flood_parked :
+  model_obs (flood_ops ++ [OHeartbeat 1; OPush [1]]) =
+  Obs [HAdd 1 2] [CFin 1 0 0 10000 0 false] 3 3 false false.
+Proof. vm_compute. reflexivity. Qed.
+
+Example C05_example_flood_released :
+  model_obs (flood_ops ++ [OHeartbeat 1; OPush [1]; OCloseExt 1; ODrain]) =
+  Obs [HAdd 1 2; HRemove 1 2 true; HCloseCb 1 2] [CFin 1 1 1 10027 0 true] 0 0 false false.
+Proof. vm_compute. reflexivity. Qed.
+
+(* 130 clients connect while the service is busy; then it catches up *)
+Example C05_example_burst_parked :
+  let s := exec_ops ([OGate true] ++ map ODial (zseq 130)) in
+  shand s = Some 1 /\ length (cch s) = 99%nat /\ ahand s = Some 101 /\ length (backlog s) = 29%nat.
+Proof. vm_compute. repeat split. Qed.
+
+Example C05_example_burst_done :
+  let s := exec_ops ([OGate true] ++ map ODial (zseq 130) ++ [OGate false; ODrain]) in
+  pipeline s = [] /\ length (conns s) = 130%nat /\ length (add_ids (hlog_of s)) = 130%nat.
+Proof. vm_compute. repeat split. Qed.
 
 (* the wrap, as documentation: with the counter moved (hook) so that an id is handed out
    while still live, two live sessions share id 2, connection 1's message is handled under
